@@ -6,6 +6,7 @@ Model: `Model/ArgStore.lean` (mirror of config.py / signatures.py). Helper lemma
 -/
 import FiddleModel.Lemmas.View
 import FiddleModel.Lemmas.History
+import FiddleModel.Lemmas.ViewSet
 
 namespace Fiddle
 open Sig
@@ -68,6 +69,77 @@ theorem varRun_congr (d d' : Dict Val) :
   induction fuel with
   | zero => intro i _; rfl
   | succ fuel ih => intro i h; simp only [varRun, h i, ih (i + 1) h]
+
+/-- **`cfg[i] = v` is list item assignment on the fixed prefix.** If the first `i + 1`
+    parameters are positional (as in every Python signature that has at least `i + 1` of them)
+    and the assignment is accepted, the prefix of the view afterwards is the prefix before with
+    slot `i` replaced by `v`, and no `*args` entry (no other index at all) is touched. -/
+theorem C03_setitem_is_list_set (s : Sig) (c c' : Cfg) (i : Nat) (v : Val) (wf : ViewWF s)
+    (hv : ∀ ts j, v ≠ .tv ts j)
+    (hpre : ∀ j, j ≤ i → ∃ p, s[j]? = some p ∧ (p.kind = .po ∨ p.kind = .pk))
+    (h : c.setItem s (i : Int) v = .ok c') :
+    viewSlots s c'.args s 0 = (viewSlots s c.args s 0).set i v ∧
+      ∀ j : Nat, j ≠ i → c'.args.get? (.idx j) = c.args.get? (.idx j) := by
+  obtain ⟨p, hp, hkey⟩ := posKeys_prefix s 0 i hpre
+  have hilt : i < s.length := (List.getElem?_eq_some_iff.mp hp).1
+  obtain ⟨p', hp', hkind⟩ := hpre i (Nat.le_refl _)
+  rw [hp] at hp'; cases hp'
+  -- the key `index_to_key` computes is the storage key of the i-th positional parameter
+  have hik : s.indexToKey (i : Int) c.args = .ok (if p.kind == .pk then .name p.name else .idx (i : Int)) := by
+    unfold Sig.indexToKey
+    have h1 : ¬ ((i : Int) < 0) := by omega
+    have h2 : (i : Int) < (s.length : Int) := by omega
+    have h3 : ¬ ((i : Int) < -(s.length : Int)) := by omega
+    simp only [h1, if_false, h2, if_true, h3]
+    have : Py.getIdx s (i : Int) = some p := by
+      unfold Py.getIdx
+      simp only [h1, if_false]
+      simpa using hp
+    rw [this]
+    simp only []
+    split <;> rfl
+  have hsv : ∃ k, posKey p (0 + i) = some k ∧ c' = c.setValue k v := by
+    unfold Cfg.setItem at h
+    have h1 : ¬ ((i : Int) < 0) := by omega
+    simp only [h1, if_false, hik] at h
+    rcases hkind with e | e
+    · have : (p.kind == Kind.pk) = false := by rw [e]; rfl
+      simp only [this, Bool.false_eq_true, if_false] at h
+      have key : ∀ (b : Bool), (if b = true then (Except.error Err.indexError : Except Err Cfg)
+          else Except.ok (c.setValue (Key.idx (i : Int)) v)) = Except.ok c' →
+          c' = c.setValue (.idx (i : Int)) v := by
+        intro b hb
+        cases b
+        · simp at hb; exact hb.symm
+        · simp at hb
+      exact ⟨.idx (i : Int), by simp [posKey, e], key _ h⟩
+    · have : (p.kind == Kind.pk) = true := by rw [e]; rfl
+      simp only [this, if_true] at h
+      cases h; exact ⟨.name p.name, by simp [posKey, e], rfl⟩
+  obtain ⟨k, hk, rfl⟩ := hsv
+  have hargs : (c.setValue k v).args = c.args.set k v := by
+    rw [setValue_plain c k v hv, log_args]
+  rw [hargs]
+  refine ⟨viewSlots_set s c.args k v s 0 i wf.keysNodup (by rw [hkey, hk]), ?_⟩
+  intro j hj
+  apply Dict.get?_set_other
+  intro e
+  subst e
+  simp only [Nat.zero_add] at hk
+  rcases hkind with e | e
+  · simp [posKey, e] at hk; omega
+  · simp [posKey, e] at hk
+
+/-- ... so for a callable without `*args` the whole list `cfg[:]` indexes into is updated like
+    a Python list: `view' = view[:i] + [v] + view[i+1:]`. -/
+theorem C03_setitem_is_list_set_no_varargs (s : Sig) (c c' : Cfg) (i : Nat) (v : Val) (wf : ViewWF s)
+    (hv : ∀ ts j, v ≠ .tv ts j) (hvp : s.vpStart = none)
+    (hpre : ∀ j, j ≤ i → ∃ p, s[j]? = some p ∧ (p.kind = .po ∨ p.kind = .pk))
+    (h : c.setItem s (i : Int) v = .ok c') :
+    s.allPositional c'.args = (s.allPositional c.args).set i v := by
+  rw [C03_view_is_lookup s c' wf, C03_view_is_lookup s c wf, hvp]
+  simp only [List.append_nil]
+  exact (C03_setitem_is_list_set s c c' i v wf hv hpre h).1
 
 /-! ### Attribute edits behave like a dict restricted to the signature -/
 
